@@ -144,7 +144,7 @@ Section SMCompleteNd.
     let maxf := dom_maxf (dom_nd dom_outside pair sizes o) in
     let returned := map project (sm_good (list Z) project outside maxf) in
     (forall ml, (forall x, ml x <> x) -> forall n, (length returned <= n)%nat ->
-       sm_run (list Z) project outside maxf (-1) (sm_incr_calls ml n) =
+       sm_run (list Z) project outside maxf sm_init (sm_incr_calls ml n) =
          map (fun s => (Some s, false)) returned ++ repeat (None, true) (n - length returned))
     /\ NoDup returned
     /\ (forall s, In s returned <-> (length s = d /\ s <> repeat 0 d) /\ outside s = false).
@@ -169,7 +169,7 @@ Theorem sm_complete_rs_nd : forall (all_sizes : list Z) (last_size o : Z) (dom_o
   let maxf := dom_maxf (dom_nd dom_outside pair sizes o) in
   let returned := map project (sm_good (list Z) project outside maxf) in
   (forall ml, (forall x, ml x <> x) -> forall n, (length returned <= n)%nat ->
-     sm_run (list Z) project outside maxf (-1) (sm_incr_calls ml n) =
+     sm_run (list Z) project outside maxf sm_init (sm_incr_calls ml n) =
        map (fun s => (Some s, false)) returned ++ repeat (None, true) (n - length returned))
   /\ NoDup returned
   /\ (forall s, In s returned <-> (length s = d /\ s <> repeat 0 d) /\ outside s = false).
@@ -194,7 +194,7 @@ Theorem sm_complete_szudzik_nd : forall (all_sizes : list Z) (last_size o : Z) (
   let maxf := dom_maxf (dom_nd dom_outside pair sizes o) in
   let returned := map project (sm_good (list Z) project outside maxf) in
   (forall ml, (forall x, ml x <> x) -> forall n, (length returned <= n)%nat ->
-     sm_run (list Z) project outside maxf (-1) (sm_incr_calls ml n) =
+     sm_run (list Z) project outside maxf sm_init (sm_incr_calls ml n) =
        map (fun s => (Some s, false)) returned ++ repeat (None, true) (n - length returned))
   /\ NoDup returned
   /\ (forall s, In s returned <-> (length s = d /\ s <> repeat 0 d) /\ outside s = false).
@@ -231,7 +231,7 @@ Theorem sm_complete_z1d : forall (n o : Z) (dom_outside : Z -> bool), 0 < o -> o
   let maxf := dom_maxf (dom_1d pair n o) in
   let returned := map project (sm_good Z project outside maxf) in
   (forall ml, (forall x, ml x <> x) -> forall k, (length returned <= k)%nat ->
-     sm_run Z project outside maxf (-1) (sm_incr_calls ml k) =
+     sm_run Z project outside maxf sm_init (sm_incr_calls ml k) =
        map (fun s => (Some s, false)) returned ++ repeat (None, true) (k - length returned))
   /\ NoDup returned
   /\ (forall s, In s returned <-> s <> 0 /\ outside s = false).
